@@ -1,67 +1,170 @@
 From Coq Require Import List NArith Bool.
 From V.gen Require Consts.
-From V.C12 Require Import Model Proofs.
+From V.C12 Require Import Model Proofs Inv2 Async Sched Progress.
 Import ListNotations.
 Open Scope N_scope.
 From V.C12 Require Import Properties.
 Check (C12_per_mode_fifo :
-  forall (c : cfg) (hs : list (list bool)) (xs : list action) (k : N) (m : bool),
-    prefix (proj k m (delivered (sg (final c hs xs)))) (proj k m (accepted (sg (final c hs xs))))).
+  forall (c : cfg) (hs : list (list bool)) (ts : list step) (x : bool) (k : N) (m : bool),
+    let s := final c hs ts in
+    prefix (proj k m (e_del (gl s (negb x)))) (proj k m (e_acc (gl s x)))).
 Check (C12_pending_prefix :
-  forall (c : cfg) (hs : list (list bool)) (xs : list action) (k : N) (m : bool),
-    let s := final c hs xs in
-    prefix (proj k m (delivered (sg s) ++ notifq (sb s))) (proj k m (accepted (sg s)))).
+  forall (c : cfg) (hs : list (list bool)) (ts : list step) (x : bool) (k : N) (m : bool),
+    let s := final c hs ts in
+    prefix (proj k m (e_del (gl s (negb x))) ++
+            (if dead_for s (negb x) k then [] else proj k m (e_nq (hn s (negb x)))) ++
+            (if (k =? per s) && reading s (negb x) then proj k m (carrier (glo s x)) else []))
+           (proj k m (e_acc (gl s x)))).
 Check (C12_no_loss_while_open :
-  forall (c : cfg) (hs : list (list bool)) (xs : list action) (m : bool),
-    let s := final c hs xs in
-    a_alive (sa s) = true -> b_alive (sb s) = true ->
-    proj (per s) m (accepted (sg s)) =
-    proj (per s) m (delivered (sg s) ++ notifq (sb s) ++ carrier (sl s) ++ sink (sa s) ++
-                    opt_list (parked (sa s)) ++ syncq (sa s) ++ asyncq (sa s))).
+  forall (c : cfg) (hs : list (list bool)) (ts : list step) (x : bool) (m : bool),
+    let s := final c hs ts in
+    killed s = false -> e_alive (cn s x) = true -> reading s (negb x) = true ->
+    proj (per s) m (e_acc (gl s x)) =
+    proj (per s) m (e_del (gl s (negb x)) ++ e_nq (hn s (negb x)) ++ carrier (glo s x) ++ e_sk (cn s x) ++
+                    opt_list (e_cur (cn s x)) ++ e_sq (cn s x) ++ e_aq (cn s x))).
+Check (C12_directions_independent :
+  forall (c : cfg) (s : st) (t : step) (x : bool), is_send_of x t = true ->
+    dview (fst (do_step c s t)) (negb x) = dview s (negb x)).
+Check (C12_reopen_order :
+  forall (c : cfg) (hs : list (list bool)) (ts : list step) (x : bool),
+    mono_from 0 (e_del (gl (final c hs ts) x))).
+Check (C12_stream_confinement :
+  forall (c : cfg) (hs : list (list bool)) (ts : list step) (x : bool),
+    let s := final c hs ts in
+    e_dper (gl s x) = map (fun n => Some (n_per n)) (e_del (gl s x))).
+Check (C12_unrepaired_filter_refuted :
+  let s := final refute_cfg [] refute_steps in
+  e_peers (hn s false) = Some 2 /\
+  snd (h_poll_gen false refute_cfg false 128 s) = UNotif (mkN true 1 true 7 8) /\
+  snd (h_poll refute_cfg false 128 s) = UPending).
+Check (C12_events_alternate :
+  forall (c : cfg) (hs : list (list bool)) (ts : list step) (x : bool),
+    let s := final c hs ts in
+    alt_state false (e_seen (gl s x) ++ e_evs (hn s x)) = Some (e_alive (cn s x))).
 Check (C12_sync_nonblocking :
-  forall (c : cfg) (s : st) (t l : N),
-  let '(s', r) := send_sync c s t l in
-  waiters (sa s') = waiters (sa s) /\
-  match a_sink (sh s) with
+  forall (c : cfg) (x : bool) (s : st) (t l : N),
+  let '(s', r) := send_sync c x s t l in
+  gep s' (negb x) = gep s (negb x) /\ lAB s' = lAB s /\ lBA s' = lBA s /\
+  e_ws (hn s' x) = e_ws (hn s x) /\ e_aq (cn s' x) = e_aq (cn s x) /\
+  match e_peers (hn s x) with
   | None => r = 3 /\ s' = s
   | Some k =>
-      if live s k then
-        if len (syncq (sa s)) <? cap_s c
-        then r = 0 /\ syncq (sa s') = syncq (sa s) ++ [mkN k true t l] /\
-             accepted (sg s') = accepted (sg s) ++ [mkN k true t l] /\ fclog (sg s') = fclog (sg s)
-        else r = 1 /\ sa s' = sa s /\ accepted (sg s') = accepted (sg s) /\ a_clogged (sh s') = true /\
-             fclog (sg s') = (if a_clogged (sh s) then fclog (sg s) else fclog (sg s) ++ [k])
+      if live s x k then
+        if len (e_sq (cn s x)) <? c_s (ecf c x)
+        then r = 0 /\ e_sq (cn s' x) = e_sq (cn s x) ++ [mkN x k true t l] /\
+             e_acc (gl s' x) = e_acc (gl s x) ++ [mkN x k true t l] /\
+             e_fclog (gl s' x) = e_fclog (gl s x) /\ e_cmds (hn s' x) = e_cmds (hn s x)
+        else r = 1 /\ cn s' x = cn s x /\ e_acc (gl s' x) = e_acc (gl s x) /\ e_clog (hn s' x) = true /\
+             (if e_clog (hn s x) || negb (e_cmds (hn s x) <? c_c (ecf c x))
+              then e_fclog (gl s' x) = e_fclog (gl s x) /\ e_cmds (hn s' x) = e_cmds (hn s x)
+              else e_fclog (gl s' x) = e_fclog (gl s x) ++ [k] /\ e_cmds (hn s' x) = e_cmds (hn s x) + 1)
       else r = 2 /\ s' = s
   end).
 Check (C12_clog_once :
-  forall (c : cfg) (hs : list (list bool)) (xs : list action),
-    NoDup (fclog (sg (final c hs xs)))).
+  forall (c : cfg) (hs : list (list bool)) (ts : list step) (x : bool),
+    NoDup (e_fclog (gl (final c hs ts) x))).
+Check (C12_force_close_closes :
+  forall (c : cfg) (s : st) (x : bool) (ts : list step) (z : bool) (b : N),
+    e_cmds (hn s x) <> 0 ->
+    let s' := fst (run c s (SCmd x :: ts ++ [SConn z b])) in
+    per s' = per s -> e_alive (cn s' z) = false).
 Check (C12_async_send :
-  forall (s : st) (t l : N),
-  let '(s', r) := send_async s t l in
-  accepted (sg s') = accepted (sg s) /\ syncq (sa s') = syncq (sa s) /\ asyncq (sa s') = asyncq (sa s) /\
-  match a_sink (sh s) with
-  | None => r = 3 /\ s' = s
-  | Some k => r = 0 /\
-      if live s k then waiters (sa s') = waiters (sa s) ++ [mkN k false t l] /\ async_err (sg s') = async_err (sg s)
-      else waiters (sa s') = waiters (sa s) /\ async_err (sg s') = async_err (sg s) + 1
+  forall (c : cfg) (x : bool) (s : st) (id t l : N),
+  let '(s', r) := async_start c x s id t l in
+  gep s' (negb x) = gep s (negb x) /\ lAB s' = lAB s /\ lBA s' = lBA s /\ e_sq (cn s' x) = e_sq (cn s x) /\
+  match find_w id (e_ws (hn s x)) with
+  | Some _ => r = 5 /\ s' = s
+  | None =>
+      match e_peers (hn s x) with
+      | None => r = 3 /\ s' = s
+      | Some k =>
+          let n := mkN x k false t l in
+          if live s x k then
+            if 0 <? afree (ecf c x) (cn s x) (e_ws (hn s x))
+            then r = 0 /\ e_aq (cn s' x) = e_aq (cn s x) ++ [n] /\ e_ws (hn s' x) = e_ws (hn s x) /\
+                 e_acc (gl s' x) = e_acc (gl s x) ++ [n]
+            else r = 4 /\ e_aq (cn s' x) = e_aq (cn s x) /\ e_ws (hn s' x) = e_ws (hn s x) ++ [mkW id n false] /\
+                 e_acc (gl s' x) = e_acc (gl s x)
+          else r = 2 /\ e_aq (cn s' x) = e_aq (cn s x) /\ e_ws (hn s' x) = e_ws (hn s x) /\
+               e_acc (gl s' x) = e_acc (gl s x)
+      end
   end).
+Check (C12_async_completion :
+  forall (x : bool) (s : st) (id : N),
+  let '(s', r) := async_poll x s id in
+  gep s' (negb x) = gep s (negb x) /\ lAB s' = lAB s /\ lBA s' = lBA s /\ e_sq (cn s' x) = e_sq (cn s x) /\
+  match find_w id (e_ws (hn s x)) with
+  | None => r = 5 /\ s' = s
+  | Some w =>
+      if wlive (cn s x) w then
+        if w_asg w
+        then r = 0 /\ e_aq (cn s' x) = e_aq (cn s x) ++ [w_n w] /\ e_acc (gl s' x) = e_acc (gl s x) ++ [w_n w] /\
+             e_ws (hn s' x) = remove_w id (e_ws (hn s x))
+        else r = 4 /\ s' = s
+      else r = 2 /\ e_aq (cn s' x) = e_aq (cn s x) /\ e_acc (gl s' x) = e_acc (gl s x) /\
+           e_ws (hn s' x) = remove_w id (e_ws (hn s x))
+  end).
+Check (C12_async_capacity :
+  forall (c : cfg) (hs : list (list bool)) (ts : list step) (x : bool),
+    let s := final c hs ts in
+    len (e_aq (cn s x)) + held (cn s x) (e_ws (hn s x)) <= c_a (ecf c x)).
 Check (C12_async_waits :
-  forall (c : cfg) (s : st),
-  a_alive (sa s) = true ->
-  let s' := fst (a_round c s) in
-  a_alive (sa s') = true -> waiters (sa s') = [] \/ cap_a c <= len (asyncq (sa s'))).
+  forall (c : cfg) (hs : list (list bool)) (ts : list step) (x : bool),
+    let s := final c hs ts in
+    afree (ecf c x) (cn s x) (e_ws (hn s x)) = 0 <->
+    len (e_aq (cn s x)) + held (cn s x) (e_ws (hn s x)) = c_a (ecf c x)).
+Check (C12_async_work_conserving :
+  forall (c : cfg) (hs : list (list bool)) (ts : list step) (x : bool),
+    let s := final c hs ts in
+    0 < afree (ecf c x) (cn s x) (e_ws (hn s x)) ->
+    Forall (fun w => ua (e_per (cn s x)) (e_alive (cn s x)) w = false) (e_ws (hn s x))).
+Check (C12_async_fifo_handover :
+  forall (c : cfg) (hs : list (list bool)) (ts : list step) (x : bool),
+    let s := final c hs ts in
+    srt (e_per (cn s x)) (e_alive (cn s x)) (e_ws (hn s x))).
+Check (C12_async_drop_returns_permit :
+  forall (c : cfg) (hs : list (list bool)) (ts : list step) (x : bool) (id : N) (w : waiter),
+    let s := final c hs ts in
+    find_w id (e_ws (hn s x)) = Some w -> w_asg w = true -> wlive (cn s x) w = true ->
+    let s' := fst (async_drop c x s id) in
+    e_aq (cn s' x) = e_aq (cn s x) /\ e_acc (gl s' x) = e_acc (gl s x) /\
+    if existsb (ua (e_per (cn s x)) (e_alive (cn s x))) (e_ws (hn s x))
+    then held (cn s' x) (e_ws (hn s' x)) = held (cn s x) (e_ws (hn s x)) /\
+         afree (ecf c x) (cn s' x) (e_ws (hn s' x)) = afree (ecf c x) (cn s x) (e_ws (hn s x))
+    else held (cn s' x) (e_ws (hn s' x)) + 1 = held (cn s x) (e_ws (hn s x)) /\
+         afree (ecf c x) (cn s' x) (e_ws (hn s' x)) = afree (ecf c x) (cn s x) (e_ws (hn s x)) + 1).
 Check (C12_oversize_never_delivered :
-  forall (c : cfg) (hs : list (list bool)) (xs : list action), 1 <= cap_n c ->
-    Forall (fun n => n_len n <= max_out c /\ n_len n <= max_in c) (delivered (sg (final c hs xs)))).
+  forall (c : cfg) (hs : list (list bool)) (ts : list step) (x : bool),
+    Forall (fun n => n_len n <= c_max (ecf c x) /\ n_len n <= c_max (ecf c (negb x)))
+           (e_del (gl (final c hs ts) x))).
 Check (C12_reserve_before_read :
-  forall (c : cfg) (hs : list (list bool)) (xs : list action), 1 <= cap_n c ->
-    let s := final c hs xs in
-    len (notifq (sb s)) + (if reserved (sb s) then 1 else 0) <= cap_n c).
+  forall (c : cfg) (hs : list (list bool)) (ts : list step) (x : bool),
+    let s := final c hs ts in
+    len (e_nq (hn s x)) + b2n (e_res (cn s x)) <= c_n (ecf c x)).
 Check (C12_no_read_without_slot :
-  forall (c : cfg) (s : st),
-    b_alive (sb s) = true -> reserved (sb s) = false -> cap_n c <= len (notifq (sb s)) ->
-    forall fuel, b_run fuel c s = s).
-Check (C12_reopen_order :
-  forall (c : cfg) (hs : list (list bool)) (xs : list action), 1 <= cap_n c ->
-    mono_from 0 (delivered (sg (final c hs xs)))).
+  forall (c : cfg) (x : bool) (b : N) (s : st),
+    e_alive (cn s x) = true -> can_reserve c x s = false ->
+    let s' := conn_poll c x b s in
+    carrier (glo s' (negb x)) = carrier (glo s (negb x)) /\ e_nq (hn s' x) = e_nq (hn s x)).
+Check (C12_outbound_progress :
+  forall (c : cfg) (x : bool) (b : N) (s : st),
+  e_alive (cn s x) = true -> wgate (glo s x) = true -> qlen s x < b ->
+  Forall (fun n => n_len n <= c_max (ecf c x)) (opt_list (e_cur (cn s x)) ++ e_sq (cn s x) ++ e_aq (cn s x)) ->
+  let '(s1, refused) := out_phase c x b s in
+  refused = false /\ e_cur (cn s1 x) = None /\ e_sq (cn s1 x) = [] /\ e_aq (cn s1 x) = [] /\ e_sk (cn s1 x) = [] /\
+  (Forall (fun n => n_sync n = true) (e_sq (cn s x)) -> Forall (fun n => n_sync n = false) (e_aq (cn s x)) ->
+   forall k m, proj k m (carrier (glo s1 x)) = proj k m (pipe s x))).
+Check (C12_inbound_progress :
+  forall (c : cfg) (y : bool) (b : N) (s : st) (n : notif) (rest : list notif),
+  e_alive (cn s y) = true -> e_shut (cn s y) = false -> killed s = false -> qlen s y < b ->
+  snd (out_phase c y b s) = false -> can_reserve c y s = true ->
+  rgate (glo s (negb y)) = true -> carrier (glo s (negb y)) = n :: rest -> n_len n <= c_max (ecf c y) ->
+  exists more, e_nq (hn (conn_poll c y b s) y) = e_nq (hn s y) ++ n :: more).
+Check (C12_handle_progress :
+  forall (c : cfg) (y : bool) (s : st) (k : N) (n : notif) (q : list notif) (b : N),
+  e_evs (hn s y) = [] -> e_peers (hn s y) = Some k -> e_nq (hn s y) = n :: q -> n_per n = k -> b <> 0 ->
+  let '(s', e) := h_poll c y b s in
+  e = UNotif n /\ e_nq (hn s' y) = q /\ e_del (gl s' y) = e_del (gl s y) ++ [n]).
+Check (C12_quiescence_is_a_schedule :
+  forall (c : cfg) (hs : list (list bool)) (xs : list action),
+    exists ts, arun c 0 (init hs) xs = final c hs ts).
